@@ -497,6 +497,10 @@ def r2_6(repo: Repo) -> RuleResult:
                 construct = "%s(%s)" % (canon.rsplit(".", 1)[1], ", ".join(["%s=%s" % kv for kv in kws] + list(conf)))
                 if key in ff:
                     rr.ok(f, construct, "same transformation on the fit path (%s:%d)" % (ff[key][0][0].qualname, ff[key][0][1].lineno), call.lineno)
+                elif not any(k[0] == canon for k in ff):
+                    # the fit path never applies this library transformation at all (e.g. a model that is fitted on
+                    # raw counts and normalises rows only when transforming): nothing to disagree with
+                    rr.ok(f, construct, "no %s call on the fit path of %s: not comparable" % (canon.rsplit(".", 1)[1], c.name), call.lineno, nontrivial=False)
                 else:
                     same_callee = sorted({"%s(%s)" % (k[0].rsplit(".", 1)[1], ", ".join(["%s=%s" % kv for kv in k[1]] + list(k[2]))) for k in ff if k[0] == canon})
                     rr.bad(f, construct,
